@@ -6,7 +6,7 @@ Abstract netlist
           'g':  [{'f': family, 'k': kind string, 'i': [src|None, ...]}],    in dependency order
           'po': [src, ...],
           'style': 'cells' | 'forks',               Verilog-like port cells / bench-like port forks
-          'w': {src: 'D'|'F'|'C'},                  wiring of every read signal: direct line, one fork, fork chain
+          'w': {src: 'D'|'F'|'C'|'L'},              wiring of every read signal: direct line, one fork, fork chain (2 deep), long chain (3 deep)
           'ports': [label, ...],                    order of ports in io_nodes ('i<k>' / 'o<k>')
           'rev': bool}                              create gate nodes in reverse order
     sources: 'i<k>', 's<k>' (true output of state element k), 'n<k>' (inverted output of flip-flop k), 'g<k>'.
@@ -146,13 +146,15 @@ def make_netlist(npi, style, raw_g, raw_st, raw_po, raw_w, rev, port_perm, cfg):
     w = {}
     r = raw_w
     for s in sorted(rd):
-        m = r % 4; r //= 4
+        m = r % 5; r //= 5
         nread = len(rd[s])
         forced_fork = style == 'forks' and (s[0] == 'i' or s in po)
         if m == 0 and nread == 1 and not forced_fork:
             w[s] = 'D'
         elif m == 1 and nread >= 1:
             w[s] = 'C'
+        elif m == 2 and nread >= 1:
+            w[s] = 'L'
         else:
             w[s] = 'F'
     nl['w'] = w
